@@ -358,7 +358,8 @@ def rule_printer(chk, prog, tier):
         while out and out[-1] == '<nl>': out.pop()
         return out
     variants = [dict(ret='int', vararg=0, export=1, nparams=2), dict(ret='void', vararg=1, export=0, nparams=1), dict(ret='struct', vararg=0, export=1, nparams=3), dict(ret='long', vararg=1, export=1, nparams=0),
-                dict(ret='double', vararg=0, export=0, nparams=2), dict(ret='int', vararg=0, export=1, nparams=1, main=1)]
+                dict(ret='double', vararg=0, export=0, nparams=2), dict(ret='int', vararg=0, export=1, nparams=1, main=1),
+                dict(ret='void', vararg=0, export=1, nparams=0, main=1), dict(ret='int', vararg=0, export=0, nparams=0, main=1), dict(ret='long', vararg=0, export=1, nparams=0, main=1)]
     for vi, var in enumerate(variants):
         expect = []
         def runner(it):
@@ -447,7 +448,7 @@ def rule_printer(chk, prog, tier):
                  '\t%%.10 =w add %s, 5' % t1, '\t%.11 =l loadl $gv', '\tstorew %.10, $.Lstring.3', '\t%.12 =d neg d_1.5', '\t%.13 =s add s_0.25, s_2', '\t%.14 =w loadw thread $tls',
                  '\t%.15 =w call $callee(w %.10, :s.7 %.11, ..., d %.12)', '\tcall $callee()', '\t%.16 =:s.7 call %.11(...)', '\tjnz %.14, @then.2, @else.3', '@then.2', '\tjmp @join.4', '@else.3', '\t%.17 =w copy 7',
                  '@join.4', '\t%.20 =w phi @then.2 1, @else.3 %.17']
-        if var.get('main'): lines += ['\tret 0']
+        if var.get('main'): lines += ['\tret 0' if var['ret'] == 'int' else '\tret']       # 5.1.2.2.3: only an int main returns 0 by falling off its end
         else: lines += ['\tret' + ('' if var['ret'] == 'void' else ' %.20'), '@dead.5', '\thlt']
         lines += ['}']
         want = toks('\n'.join(lines))
